@@ -1019,7 +1019,7 @@ def _is_zero(n):
     return n.get("k") == "Lit" and n.get("int") == 0
 
 
-@rule("T6", ["C06"], floor=2, doc="typestate of every element-wise initialised `[MaybeUninit<T>; N]` buffer in a reader: the whole array is assumed "
+@rule("T6", ["C06"], floor=1, doc="typestate of every element-wise initialised `[MaybeUninit<T>; N]` buffer in a reader: the whole array is assumed "
       "initialised only after a fill of all N slots that cannot be left early except by returning; a slot is assumed initialised "
       "inside the fill loop (error clean-up) only for indices below the one being filled")
 def t6(facts, tier):
